@@ -25,7 +25,7 @@ def exact(x0, a, w, g, t):
     th = mp.sqrt(sum(v * v for v in w))
     W = hat(w); W2 = W * W
     x = th * t
-    if x < mp.mpf("1e-8"):
+    if abs(x) < mp.mpf("1e-8"):
         c1 = t**2 / 2; c2 = t**3 / 6; c3 = t**4 / 24; s1 = t           # (1-cos x)/th^2, (x-sin x)/th^3, (x^2/2+cos x-1)/th^4, sin x/th
     else:
         c1 = (1 - mp.cos(x)) / th**2; c2 = (x - mp.sin(x)) / th**3; c3 = (x**2 / 2 + mp.cos(x) - 1) / th**4; s1 = mp.sin(x) / th
@@ -68,6 +68,8 @@ def search(S):
             w = wdir * rng.uniform(0.1, 3); dt = float(rng.uniform(0.5, 5))
         else:
             w = rng.normal(size=3); dt = float(10 ** rng.uniform(-4, 0.5))
+            if m == 7:
+                dt = -dt            # the flow is defined for negative steps as well (propagating backwards)
         return x0, a, w, g, dt
 
     def err(x1, ref):
@@ -120,4 +122,4 @@ def search(S):
         S.check("strapdown_ins_propagate", "history", {"x0": x0.tolist(), "g": g, "segments": segs}, bool(np.max(np.abs(x[:6] - xcur[:6])) <= 1e-8 * scale), xcur.tolist(), x.tolist(), "a sequence of steps with piecewise-constant inputs drifts from the exact flow")
 
 
-H.run(search, "real rdd2.derive_strapdown_ins_propagation() function: random states (positions ~5, velocities ~2, unit quaternions of either sign), specific forces ~5, gravity 0..12; rates exactly 0, 1e-12..1e-3, theta*dt on both sides of the coefficient switches (0.0316, 0.0632), 5..40 rad/s with 1..20 ms steps, slow rates with steps up to 5 s; reference: 50-digit closed-form flow; splits of one step into two; sequences of 2..7 segments; distinct = distinct (unit, input)")
+H.run(search, "real rdd2.derive_strapdown_ins_propagation() function: random states (positions ~5, velocities ~2, unit quaternions of either sign), specific forces ~5, gravity 0..12; rates exactly 0, 1e-12..1e-3, theta*dt on both sides of the coefficient switches (0.0316, 0.0632), 5..40 rad/s with 1..20 ms steps, slow rates with steps up to 5 s, negative steps; reference: 50-digit closed-form flow; splits of one step into two; sequences of 2..7 segments; distinct = distinct (unit, input)")
